@@ -371,6 +371,12 @@ def check_c06(res, tier, replay):
     for comp, f in findings.items():
         if known.get(comp):
             res.known_hit.append(known_line(f) + ' [%d cases]' % known[comp])
+    if not replay:
+        # the rule is applied at position i of the *current* configuration: a strategy re-configured after a first run acts like a fresh one
+        from c_runtime import check_reconf
+        rc_n, rc_bad = check_reconf(res, rng, tier, ('STRAT',), 'C06')
+        bad += rc_bad
+        res.coverage['reconfigured_after_use'] = rc_n
     res.samples = [{'case': lines[i][:160] + '…'} for i in (0, len(lines) // 2)] if lines else []
     res.coverage.update({
         'evaluations': len(cases), 'distinct_nontrivial': len(cells),
@@ -628,6 +634,12 @@ def check_c07(res, tier, replay):
                            'first_difference': {'index': j, 'expected': want[j] if j < len(want) else None,
                                                 'go': g[0][j] if j < len(g[0]) else None, 'expected_len': len(want), 'go_len': len(g[0])},
                            'oracle': 'documented combination of the wrapped action streams (tools/c_strategies.py py_eval)'})
+    if not replay:
+        # "functions of their wrapped strategies": the real wrapper types, with the wrapped strategies replaced after a first run
+        from c_runtime import check_reconf
+        rc_n, rc_bad = check_reconf(res, rng, tier, ('WRAPPED',), 'C07')
+        bad += rc_bad
+        res.coverage['reconfigured_after_use'] = rc_n
     res.samples = [{'case': lines[i][:200], 'go': go.get(lines[i].split(' ')[0], '')[:120]} for i in (0, len(lines) // 2, len(lines) - 1)]
     res.coverage.update({
         'evaluations': len(cases), 'distinct_nontrivial': len(cells),
@@ -735,6 +747,36 @@ def check_c08(res, tier, replay):
             exp_tx.append(tx)
         if t0 != exp_tx:
             fail(gi, 'CountTransactions', {'go': t0[:20], 'expected': exp_tx[:20]}); continue
+    if not replay:
+        # buy-and-hold through the library's own BuyAndHoldStrategy, on an instance that has been used before
+        bh = []
+        for k in range(4 if tier == 'quick' else 20):
+            envs = []
+            for t in range(2):
+                o, _ = gen_ohlcv(rng, rng.randrange(1, 40), rng.choice(['walk', 'wide', 'zigzag', 'down', 'up']))
+                envs.append([o[x] for x in 'ohlcv'])
+            bh.append(envs)
+        bl = ['b%d RECONF OUTCOME BuyAndHold %s %s BuyAndHold %s %s replace %s' % (k, il([]), fl([]), il([]), fl([]), '/'.join(streams(e) for e in envs))
+              for k, envs in enumerate(bh)]
+        bg = vlib.run_go(bl)
+        for k, envs in enumerate(bh):
+            g = bg.get('b%d' % k, 'missing')
+            parts = g[3:].split(' | ') if g.startswith('ok ') else []
+            closes = envs[1][3]
+            exp = [c / closes[0] - 1.0 for c in closes]
+            problem = None
+            if len(parts) != 3:
+                problem = 'run failed: ' + g[:200]
+            else:
+                cols = parts[1].split(';')
+                out = [h2f(x) for x in cols[1].split(',')] if len(cols) == 2 and cols[1] != '-' else []
+                if len(out) != len(exp) or any(abs(x - y) > 1e-12 * max(1.0, abs(y)) for x, y in zip(out, exp)):
+                    problem = 'BuyAndHoldStrategy (second run on one instance): outcome is not value_i/value_0 - 1: go=%s expected=%s' % (out[:6], exp[:6])
+            checks['buy_and_hold_strategy_reused'] += 1
+            if problem:
+                bad += 1
+                res.violation({'case': {'closings_first_run': envs[0][3], 'closings': closes}, 'violates': 'buy-and-hold = v_i/v_0 - 1', 'detail': problem,
+                               'lines': [bl[k]]})
     res.samples = [{'word': groups[i][0][:12], 'values': groups[i][1][:6]} for i in (1, len(groups) // 2, len(groups) - 1)]
     res.coverage.update({
         'evaluations': len(cases), 'distinct_nontrivial': len(cells),
